@@ -428,6 +428,11 @@ func (vr *variableResolver) resolve(ctx *ExecutionContext) (*Value, error) {
 			current = reflect.ValueOf(current.Interface())
 		}
 
+		if current.Kind() == reflect.Func && current.IsNil() {
+			// a nil function value cannot be called: treat it like any other nil
+			return AsValue(nil), nil
+		}
+
 		// Check if the part is a function call
 		if part.isFunctionCall || current.Kind() == reflect.Func {
 			// Check for callable
